@@ -58,15 +58,19 @@ def build_ts_X_y(model, X, y, weights=None, same_rows=False):
     assert hasattr(model, "use_all_past") and hasattr(
         model, "past"
     ), f"model must be of type BaseTimeSeries not {type(model)}"
+    # the features hold the past of the series and the exogenous variables: a type able to hold both
+    dtype_x = y.dtype if X is None else numpy.result_type(numpy.asarray(X).dtype, y.dtype)
     if same_rows:
         # rows without value are filled with nan: an integer series needs a float result
         dtype = y.dtype if numpy.issubdtype(y.dtype, numpy.floating) else numpy.float64
+        if not numpy.issubdtype(dtype_x, numpy.floating):
+            dtype_x = numpy.float64
         if model.use_all_past:
             ncol = X.shape[1] if X is not None else 0
             nrow = y.shape[0] - model.delay2 - model.past + 2
 
             new_X = numpy.full(
-                (y.shape[0], ncol * model.past + model.past), numpy.nan, dtype=dtype
+                (y.shape[0], ncol * model.past + model.past), numpy.nan, dtype=dtype_x
             )
             first = y.shape[0] - nrow
             if X is not None:
@@ -91,7 +95,7 @@ def build_ts_X_y(model, X, y, weights=None, same_rows=False):
             first = y.shape[0] - nrow
 
             new_X = numpy.full(
-                (y.shape[0], ncol + model.past), numpy.nan, dtype=dtype
+                (y.shape[0], ncol + model.past), numpy.nan, dtype=dtype_x
             )
             if X is not None:
                 new_X[first:, : X.shape[1]] = X[
@@ -113,7 +117,7 @@ def build_ts_X_y(model, X, y, weights=None, same_rows=False):
             ncol = X.shape[1] if X is not None else 0
             nrow = y.shape[0] - model.delay2 - model.past + 2
 
-            new_X = numpy.empty((nrow, ncol * model.past + model.past), dtype=y.dtype)
+            new_X = numpy.empty((nrow, ncol * model.past + model.past), dtype=dtype_x)
             if X is not None:
                 for i in range(0, model.past):
                     begin = i * ncol
@@ -136,7 +140,7 @@ def build_ts_X_y(model, X, y, weights=None, same_rows=False):
             ncol = X.shape[1] if X is not None else 0
             nrow = y.shape[0] - model.delay2 - model.past + 2
 
-            new_X = numpy.empty((nrow, ncol + model.past), dtype=y.dtype)
+            new_X = numpy.empty((nrow, ncol + model.past), dtype=dtype_x)
             if X is not None:
                 new_X[:, : X.shape[1]] = X[
                     model.past - 1 : X.shape[0] - model.delay2 + 1
